@@ -46,3 +46,8 @@ def run(ctx):
         "algebraic soundness of the rewrites the rules rely on (filter split/pushdown through inner, left, semi/anti joins, projections, aggregates on keys; limit/projection commutation; top-k hint; 3VL distributivity, conjunction flattening, conjunct reordering, constant folding on closed expressions) over the shallow relational algebra model/Rel.v built on model/Sql.v; negative results (right side of LEFT JOIN, global aggregate, the absorption case of DistributiveOrRewrite) as closed witnesses",
         "every generated query runs with enable_optimizer true and false under the same partition count; both answers are judged against the reference semantics (hence against each other) and their announced schemas compared; distinct = distinct (SQL text, config)",
         pair_check=pair_check)
+
+
+def replay(ctx, payload):
+    from . import sqlrun
+    return sqlrun.replay(ctx, payload)
